@@ -386,9 +386,11 @@ def crash_scen(tier, seed):
 # handle-carrying programs (world) are part of C02 as well
 PROPS['C02']['scenarios'] = (lambda *fs: (lambda tier, seed: [x for f in fs for x in f(tier, seed)]))(sched_scen(480, 12000), timed_scen_late(['default'], 120, 3000), world_scen_late(['default'], 100, 2000),
                              lambda tier, seed: [{'args': ['set', '--seed', str(seed + 7), '--n', str(600 if tier == 'thorough' else 40), '--tier', tier]}],
-                             lambda tier, seed: [{'args': ['eofrace', '--tier', tier]}])
+                             lambda tier, seed: [{'args': ['eofrace', '--tier', tier]}],
+                             lambda tier, seed: [{'args': ['stress', '--seed', str(seed + k), '--n', str(8000 if tier == 'thorough' else 600), '--tier', tier]} for k in range(2)])
 PROPS['C02']['rule'] += ('; plus timed scripts (every queued message must be returned, in order, by whichever of recv / try_recv / try_recv_timeout is issued, also after the last '
-                         'sender is gone), world programs compared with the specification, and receiver-set scripts (delivery through select: per-member order and exactly-once, incl. '
+                         'sender is gone), ungated stress rounds (1..6 sender threads on clones, mixed sizes, handles dropped at once; recv / spinning try_recv / try_recv_timeout / select; per-sender order, exactly-once, disconnection last), '
+                         'eofrace (message then immediate drop vs a polling receiver), world programs compared with the specification, and receiver-set scripts (delivery through select: per-member order and exactly-once, incl. '
                          'many members ready at once and one batch of several MiB, then silence)')
 PROPS['C12']['scenarios'] = (lambda old: (lambda tier, seed: old(tier, seed) + crash_scen(tier, seed)))(sched_scen(240, 6000))
 PROPS['C12']['rule'] += ('; crash: a spawned sender process is killed by its interposer immediately before counted system call k (socketpair, every sendmsg/send, every '
